@@ -484,6 +484,8 @@ func runV1Payouts(b *harness.B) {
 				b.Violate("C17/v1/rhp3.CalculateHostPayouts/valid-differs-from-missed-plus-void", fmt.Sprintf("valid %v != missed %v + void %v", hv, hm, vm), map[string]any{"current": jsonOf(cur.FileContract), "end_height": end, "price_table": jsonOf(pt), "expected_new_storage": exp})
 			}
 			b.Count("v1_host_payouts_checked", 1)
+			b.SetAdd("constructors_exercised", "rhp2.CalculateHostPayouts")
+			b.SetAdd("constructors_exercised", "rhp3.CalculateHostPayouts")
 			b.Distinct("v1hp", toBig(pt.MaxCollateral).BitLen()/8, cur.FileContract.Filesize > 0)
 		}
 	}
@@ -621,6 +623,7 @@ func runV1Chain(b *harness.B) {
 				b.Violate(key+"/request-signature-invalid", "the request signature does not verify over the new revision", wit())
 			}
 			b.Count("v1_revisions_checked", 1)
+			b.SetAdd("constructors_exercised", "rhp3.PayByContract")
 			// consensus: the revision against the confirmed parent
 			txn := revisionTxn(c.cs, g, rev)
 			sup := consensus.V1TransactionSupplement{RevisedFileContracts: []types.FileContractElement{fce.Copy()}}
